@@ -197,6 +197,9 @@ func (w *World) evalMemcheck(tag string) {
 	if w.lostReplies > 0 {
 		return // after a lost reply only a restart can restore equality (DESIGN §4 C05)
 	}
+	if _, idx := w.confInForceIdx(mem); idx > w.inForceLB {
+		w.inForceLB = idx // the tables match this version: older ones can no longer be in force
+	}
 	if _, idx := w.confInForceIdx(mem); idx < 0 && !w.hostileConfActive {
 		// nothing is in flight, yet the tables (allocated + unallocated, with the pool of each IP) correspond to no
 		// configuration version that was ever published: a reload left them half swapped
